@@ -292,6 +292,59 @@ theorem C14_tag_window_partial (b : Bank) (rs : List Win) (ws : List Bytes) (hr 
       apply List.take_of_length_le
       simp only [List.length_drop, List.length_map]; omega
 
+/-- what the code guarantees for a fresh placement with ANY start offset (no `Adm.fresh0`; this is
+D11 stated as what it actually is): the header gets `position = p` with `[p, p + size)` a newly
+allocated region holding the FIRST `size` bytes of the data (not the bytes from `start` on); the
+playback window `[p + start, p + start + size)` therefore shows `data[start .. size)` followed by
+the `start` bytes that lie behind the region — bytes this sample does not own. -/
+theorem C14_offset_fresh_stored (b : Bank) (rs : List Win) (h : Sample) (data : Bytes) (b' : Bank) (idx : Nat)
+    (inv : Inv b rs) (hsz : h.size ≤ data.length) (hsmall : data.length < 1073741824)
+    (hnew : findDuplicate b h data = none) (hok : addSample b h data = .ok (b', idx)) :
+    ∃ p, b'.samples = b.samples ++ [{ h with position := p }] ∧ idx = b.samples.length ∧
+      p + h.size ≤ b'.currentSize ∧ b'.currentSize ≤ b'.rom.length ∧
+      Win.reads b'.rom ⟨p, h.size⟩ = data.take h.size ∧
+      (∀ x, p ≤ x → x < p + h.size → cover rs x = 0) ∧
+      (h.start ≤ h.size →
+        Win.reads b'.rom ⟨p + h.start, h.size⟩ =
+          (data.take h.size).drop h.start ++ Win.reads b'.rom ⟨p + h.size, h.start⟩) := by
+  unfold addSample at hok
+  have hb0 : ¬ b.bankSize = 0 := by have := inv.bankPos; omega
+  have hs0 : ¬ h.size > data.length := by omega
+  simp only [hs0, hb0, if_false, hnew] at hok
+  unfold addFresh at hok
+  simp only at hok
+  split at hok
+  · cases hok
+  · rename_i hfit
+    split at hok
+    · cases hok
+    · obtain ⟨_, p2, p3, p4, _, _, _, p8⟩ := placeFresh_spec b rs h.size inv (by omega) hfit
+      simp only [Except.ok.injEq, Prod.mk.injEq] at hok
+      obtain ⟨hb', hidx⟩ := hok
+      subst hb'
+      have hrl := inv.romLen
+      have hw1 : (placeFresh b h.size).2.1 + h.size ≤ b.rom.length := by omega
+      have hself := reads_writeAt_self b.rom data (placeFresh b h.size).2.1 h.size hw1 hsz
+      have hlen := writeAt_length b.rom data (placeFresh b h.size).2.1 h.size hw1 hsz
+      refine ⟨(placeFresh b h.size).2.1, rfl, hidx.symm, p4, by simp only; rw [hlen]; omega, hself, p8, ?_⟩
+      intro hst
+      simp only
+      generalize writeAt b.rom (placeFresh b h.size).2.1 data h.size = rom' at hself hlen ⊢
+      generalize (placeFresh b h.size).2.1 = p at *
+      rw [← hself]
+      simp only [Win.reads]
+      have hL : (rom'.drop p).length ≥ h.size := by simp; omega
+      generalize hLd : rom'.drop p = L at *
+      have e1 : rom'.drop (p + h.start) = L.drop h.start := by rw [← hLd, List.drop_drop]
+      have e2 : rom'.drop (p + h.size) = L.drop h.size := by rw [← hLd, List.drop_drop]
+      rw [e1, e2]
+      conv => lhs; rw [← List.take_append_drop h.size L]
+      rw [List.drop_append_of_le_length (by simp; omega)]
+      rw [List.take_append]
+      have hl2 : ((L.take h.size).drop h.start).length = h.size - h.start := by simp; omega
+      rw [List.take_of_length_le (by omega), hl2]
+      congr 2; omega
+
 def d11Data : Bytes := [0x10, 0x11, 0x12, 0x13, 0x14, 0x15, 0x16, 0x17, 0x18, 0x19, 0x1a, 0x1b, 0x1c, 0x1d, 0x1e, 0x1f]
 def d11Header : Sample := ⟨0, 4, 12, 0, 0, 8000, 0, 0⟩
 def d11Bank : Bank := match addSample (Bank.new 32 0) d11Header d11Data with
